@@ -318,6 +318,26 @@ def check_prepare(P, R):
     c1 = cone(du, za[1], lp, interproc=False) if len(za) > 1 else None
     ok_len = c0 is not None and any(x.endswith("map_partitions") for x in c0.calls) and c1 is not None and any(x.endswith("to_delayed") for x in c1.calls)
     R.check(ok_len, "IDX.route-partitions", key, f"zip({', '.join(src(a) for a in za)})", "partition lengths paired with the partitions", "partition lengths and partitions are not both derived from the same bag")
+    if ok_len:
+        # ... of the *same* bag: the collection whose partitions are measured is the one whose partitions are walked
+        from ..dataflow import resolve_name as _rn12
+        def recv_of(cn, meth):
+            out = []
+            for x in cn.nodes:
+                if isinstance(x, ast.Call) and isinstance(x.func, ast.Attribute) and x.func.attr == meth:
+                    try:
+                        st_ = du.stmt_of(x)
+                    except Exception:
+                        st_ = None
+                    out.append((x.func.value, st_ if st_ is not None else lp))
+            return out
+        r0, r1 = recv_of(c0, "map_partitions"), recv_of(c1, "to_delayed")
+        def ident(e_, s_):
+            if isinstance(e_, ast.Name):
+                return (e_.id, tuple(sorted(id(d) for d in du.reaching(s_, e_.id))))
+            return ("expr", src(e_))
+        same_bag = bool(r0) and bool(r1) and all(isinstance(e_, ast.Name) for e_, s_ in r0 + r1) and len({ident(e_, s_) for e_, s_ in r0 + r1}) == 1
+        R.check(same_bag, "IDX.route-partitions", key, f"lengths of `{src(r0[0][0])[:30] if r0 else '?'}` walk the partitions of `{src(r1[0][0])[:30] if r1 else '?'}`", "the partitions measured are the partitions walked", f"the partition lengths are taken from `{src(r0[0][0])[:60] if r0 else '?'}` but the partitions walked are those of `{src(r1[0][0])[:30] if r1 else '?'}`: when the two collections are partitioned differently (a labels bag with other partition sizes) the running index pairs statistics with the wrong labels", lp.lineno)
 
 
 def check_reduce_iadd(P, R):
